@@ -1,5 +1,6 @@
 """C19 - suite utilities preserve the test set: filter keeps chosen ids, sort permutes."""
 import collections
+import functools
 import io
 import itertools
 import os
@@ -18,6 +19,14 @@ RULE = ("Hypothesis-generated suite trees (depth 0..4, fan-out 0..4) mixing plai
         "PlaceHolder-based leaves with unique or duplicated ids, plus id subsets incl. absent ids; "
         "iterate_tests / filter_by_ids / sorted_tests / testtools.run --list / --load-list are compared "
         "with a reference flattening, filtering and ordering computed on the spec. Also: FixtureSuite nodes, the utilities composed on one tree (sort, filter, sort), custom suites keep their identity through filter_by_ids, list files with CRLF / without a final newline, test_ids as set / frozenset / list / dict / __contains__-only object, ids that sort differently under other collations, the exit status of --list. "
+        "Also: unique-id trees are labelled without replacement from a pool of ids that collide or reorder under casefold / natural order / strip / NFC "
+        "(NFC and NFD twins, T1 / t1 / t1+nbsp) and the root is a suite in 6 of 7 draws; id subsets are drawn from the tree's own ids in 2 of 3 cases; "
+        "the suite kind with a filter_by_ids hook keeps its tests outside _tests (reachable through iter() and the hook only); one leaf object at several "
+        "places of a tree; after sorted_tests the inside of every element kept whole is compared (a suite with sort_tests has sorted itself, any other "
+        "custom suite is untouched); a plain suite handed to filter_by_ids holds the kept tests afterwards; a filtered tree is filtered again; "
+        "unpack_outer by keyword; --list --load-list also through runner classes without list() / whose list() takes no loader, and its exit status; "
+        "two exhaustive grids: every ordered pair of 13 such ids in six shapes (+ triples around a custom suite, shared objects) through the utilities, "
+        "and every ordered pair through --list / --load-list. "
         "Non-trivial: depth >= 2 "
         "with a custom suite, or an empty custom suite, or a duplicate id below depth 1; distinct = "
         "distinct canonical (tree, ids).")
@@ -25,49 +34,76 @@ ASSUMPTIONS = [
     "custom filter_by_ids implementations are correct and may return a new suite (as the docstring allows)",
     "where an empty custom suite lands in sorted_tests' result is not asserted (it has no first test)",
     "grouping after filter_by_ids is compared modulo empty suites (removed tests are replaced by empty suites)",
+    "a TestSuite (sub)class without a filter_by_ids hook is filtered in place: the object handed in is returned (custom kinds) and holds "
+    "the kept tests (plain root) - this rests on the docstring (':return: suite_or_case', 'mutate in place') and on 'leaves' in the statement",
+    "whether sorted_tests keeps a custom suite WITHOUT tests is not asserted either (present or dropped); the result is some unittest.TestSuite "
+    "(sub)class instance, not necessarily exactly TestSuite",
+    "an all-passing --load-list run exits 0 / False; when nothing was selected, 5 (unittest's 'no tests ran' since 3.12) is accepted too",
+    "'placed by its first test' is read as the first test at the time sorted_tests is called (before the suite's own sort_tests hook ran), "
+    "at the top level and inside suites that sort themselves with sorted_tests(self, True)",
+    "inside a custom suite WITHOUT sort_tests, whether sort_tests hooks of suites nested in it are reached is not asserted (only that no test is lost)",
+    "ids have no ASCII white space at an edge (--load-list strips it, DESIGN 11.2); every suite kind without its own filter_by_ids hook iterates "
+    "its _tests list in storage order (the in-place fallback cannot serve anything else); list(test) fallbacks of TestProgram are driven with --list only",
 ]
 
-IDS = ["t%d" % i for i in range(8)] + ["mod.Class.test_x", "é.test", "", "\u00a0nbsp.test", "wide.test\u3000", "Z.test", "a.test", "t10"]   # the last two begin / end with non-ASCII white space
+IDS = ["t%d" % i for i in range(8)] + ["mod.Class.test_x", "\u00e9.test", "", "\u00a0nbsp.test", "wide.test\u3000", "Z.test", "a.test", "t10",
+                                       "e\u0301.test"]
+# "\u00a0nbsp.test" / "wide.test\u3000" begin / end with non-ASCII white space; "\u00e9.test" is NFC, "e\u0301.test" its NFD twin
+# (canonically equivalent, different ids).  No id has ASCII white space at an edge: --load-list strips it (DESIGN 11.2).
+# Labels of the unique-id branch: IDS plus ids that collide / reorder under casefold, natural order, strip and NFC.
+EXTRA = ["T1", "t1\u00a0", "B.x", "b.x", "t9", "t11", "nbsp.test", "wide.test"]
+POOL = IDS + EXTRA
 KINDS = ["plain", "plain", "sub", "sorting", "filtering", "fixture"]
+
+LEAF = st.builds(lambda i, lk: {"k": "leaf", "id": i, "lk": lk}, st.sampled_from(IDS),
+                 st.sampled_from(["placeholder", "placeholder", "clone", "decorated", "shared"]))
+KIND = st.sampled_from(KINDS)
+
+
+def suite(depth, min_size=0):
+    return st.builds(lambda k, c: {"k": k, "c": c}, KIND, st.lists(tree(depth - 1), min_size=min_size, max_size=4))
 
 
 def tree(depth):
-    leaf = st.builds(lambda i, lk: {"k": "leaf", "id": i, "lk": lk}, st.sampled_from(IDS),
-                     st.sampled_from(["placeholder", "placeholder", "clone", "decorated"]))
     if depth == 0:
-        return leaf
-    return st.one_of(leaf, st.builds(lambda k, c: {"k": k, "c": c}, st.sampled_from(KINDS),
-                                     st.lists(tree(depth - 1), max_size=4)))
+        return LEAF
+    return st.one_of(LEAF, suite(depth))
 
 
-TREE = st.one_of(tree(0), tree(1), tree(2), tree(3), tree(4))
+# the root is a suite in 6 of 7 draws (a lone leaf exercises next to nothing)
+TREE = st.one_of(tree(0), suite(1), suite(2), suite(3), suite(4), suite(2, 1), suite(3, 2))
 UNIQ = st.booleans()
+PERM = st.permutations(POOL)
+MASK = st.lists(st.booleans(), min_size=12, max_size=12)
+OWN = st.sampled_from([True, True, False])
+STRAY = st.sets(st.sampled_from(POOL + ["absent"]), max_size=2)
+ANY_IDS = st.sets(st.sampled_from(POOL + ["absent"]), max_size=8)
+IDS_AS = st.sampled_from(["set", "set", "frozenset", "list", "dict", "contains-only"])
 
 
 @st.composite
 def s_case(draw):
     t = draw(TREE)
     if draw(UNIQ):
-        # relabel leaves so that all ids are unique
+        # relabel the leaves with distinct ids drawn without replacement from POOL (u%02d beyond its size): the order,
+        # casefold / strip / NFC-collision sensitive ids meet each other in trees of every size
+        n = len(leaves(t))
+        labels = (list(draw(PERM)) + ["u%02d" % i for i in range(max(0, n - len(POOL)))])[:n] if n else []
         counter = itertools.count()
 
-        def relabel(n):
-            if n["k"] == "leaf":
-                return {"k": "leaf", "id": "u%02d" % next(counter), "lk": n.get("lk", "placeholder")}
-            return {"k": n["k"], "c": [relabel(c) for c in n["c"]]}
-        # shuffle labels so that sorting is not the identity
-        t = relabel(t)
-        n = next(counter)
-        perm = draw(st.permutations(list(range(n)))) if n else []
-
-        def apply(nod):
+        def relabel(nod):
             if nod["k"] == "leaf":
-                return {"k": "leaf", "id": "u%02d" % perm[int(nod["id"][1:])], "lk": nod.get("lk", "placeholder")}
-            return {"k": nod["k"], "c": [apply(c) for c in nod["c"]]}
-        t = apply(t)
-    ids = draw(st.sets(st.sampled_from(IDS + ["u%02d" % i for i in range(12)] + ["absent"]), max_size=8))
-    return {"tree": t, "ids": sorted(ids), "unpack_outer": draw(st.booleans()),
-            "ids_as": draw(st.sampled_from(["set", "set", "frozenset", "list", "dict", "contains-only"]))}
+                return {"k": "leaf", "id": labels[next(counter)], "lk": nod.get("lk", "placeholder")}
+            return {"k": nod["k"], "c": [relabel(c) for c in nod["c"]]}
+        t = relabel(t)
+    own = sorted(set(leaves(t)))
+    if own and draw(OWN):
+        # a subset of the tree's own ids (first 12 distinct ones) plus up to two stray ids
+        mask = draw(MASK)
+        ids = {i for i, m in zip(own, mask) if m} | draw(STRAY)
+    else:
+        ids = draw(ANY_IDS)
+    return {"tree": t, "ids": sorted(ids), "unpack_outer": draw(st.booleans()), "ids_as": draw(IDS_AS)}
 
 
 RUNLOG = []
@@ -96,8 +132,23 @@ def classes():
         return FixtureSuite(fixtures.Fixture(), tests)
 
     class Filtering(unittest.TestSuite):
+        """A suite with its own filter_by_ids hook that does NOT keep its tests in ``_tests`` (lazy / generated suites,
+        testresources-style containers): only ``iter()`` and the hook give access to them."""
+        _cleanup = False            # TestSuite.run would index _tests otherwise
+
+        def __init__(self, tests=()):
+            super().__init__()
+            self._kids = list(tests)
+
+        def __iter__(self):
+            return iter(self._kids)
+
+        def addTest(self, test):
+            self._kids.append(test)
+
         def filter_by_ids(self, test_ids):
             return Filtering([filter_by_ids(t, test_ids) for t in self])
+
     class Stdlib(unittest.TestCase):
         def test_m(self):
             RUNLOG.append(self.id())
@@ -105,7 +156,7 @@ def classes():
             "fixture": fixture_suite}
 
 
-def make_leaf(node, cls):
+def make_leaf(node, cls, shared):
     lk = node.get("lk", "placeholder")
     if lk == "clone":
         # scenario-style clones of ONE stdlib test method: equal by unittest's __eq__, different ids
@@ -114,18 +165,25 @@ def make_leaf(node, cls):
     if lk == "decorated":
         import testtools
         return testtools.DecorateTestCaseResult(cls["leaf"](node["id"]), lambda result: result)
+    if lk == "shared":
+        # ONE object wherever this id occurs with this leaf kind (suite.addTest(t) twice): each occurrence is a leaf
+        if node["id"] not in shared:
+            shared[node["id"]] = cls["leaf"](node["id"])
+        return shared[node["id"]]
     return cls["leaf"](node["id"])
 
 
-_STDLIB = []
+_ALIVE = []     # every object built for the current case stays alive, so that id() keys of ``registry`` are never reused
 
 
-def build(node, cls, registry):
+def build(node, cls, registry, shared=None):
+    shared = {} if shared is None else shared
     if node["k"] == "leaf":
-        obj = make_leaf(node, cls)
+        obj = make_leaf(node, cls, shared)
     else:
-        obj = cls[node["k"]]([build(c, cls, registry) for c in node["c"]])
+        obj = cls[node["k"]]([build(c, cls, registry, shared) for c in node["c"]])
     registry[id(obj)] = node
+    _ALIVE.append(obj)
     return obj
 
 
@@ -157,12 +215,54 @@ def depth_of(node):
     return 0 if node["k"] == "leaf" else 1 + max([depth_of(c) for c in node["c"]] or [0])
 
 
+HOOKED = ("sorting", "fixture")       # kinds with a sort_tests hook
+
+
+def top_elems(node, outer):
+    """Reference for what sorted_tests keeps as one element: leaves, and custom suites whole."""
+    if node["k"] == "leaf":
+        return [node]
+    if node["k"] == "plain" or outer:
+        return [x for c in node["c"] for x in top_elems(c, False)]
+    return [node]
+
+
+def undecided(node):
+    """A hook-less custom suite with a sort_tests suite somewhere inside: kept whole, but whether the hooks inside it are
+    reached is not something the statement settles."""
+    if node["k"] == "leaf":
+        return False
+
+    def has_hooked(n):
+        return n["k"] in HOOKED or any(has_hooked(c) for c in n.get("c", []))
+    if node["k"] not in HOOKED and node["k"] != "plain" and any(has_hooked(c) for c in node["c"]):
+        return True
+    return any(undecided(c) for c in node["c"])
+
+
+def inner_ids(node):
+    """Leaf ids, in order, of a top-level element after sorted_tests: a suite with a sort_tests hook has sorted itself
+    (sorted_tests(self, True): elements placed by their first test as it was before they sorted themselves, empty ones
+    last), any other custom suite is as it was."""
+    if node["k"] == "leaf":
+        return [node["id"]]
+    if node["k"] not in HOOKED:
+        return leaves(node)
+    keyed = []
+    for n in top_elems(node, True):
+        ls = leaves(n)
+        keyed.append(((not ls, ls[0] if ls else ""), n))
+    keyed.sort(key=lambda kn: kn[0])        # stable
+    return [i for _, n in keyed for i in inner_ids(n)]
+
+
 def run_case(spec):
     from testtools.testsuite import iterate_tests, filter_by_ids, sorted_tests
     vs = []
     cls = classes()
     t = spec["tree"]
     want_leaves = leaves(t)
+    del _ALIVE[:]
 
     # iterate_tests
     reg = {}
@@ -207,6 +307,12 @@ def run_case(spec):
                 break
     if t["k"] in ("sub", "sorting", "fixture") and res is not live:
         vs.append(V("filter", "not-in-place", "filter_by_ids of a %s suite returned another object (%r)" % (t["k"], type(res).__name__)))
+    elif t["k"] == "plain" and got == want:
+        # "leaves exactly the tests ...": a suite without a hook is filtered in place - the object handed in holds the kept tests
+        left = [x.id() for x in iterate_tests(live)]
+        if left != want:
+            vs.append(V("filter", "input-not-filtered", "after filter_by_ids(%r) the plain suite handed in holds %r, expected %r" % (
+                sorted(keep), left, want)))
     # the utilities composed on one tree, as testtools.run composes them (discover sorts, --load-list filters)
     dup = [i for i, n in collections.Counter(want_leaves).items() if n > 1]
     if not dup:
@@ -221,6 +327,15 @@ def run_case(spec):
             if got2 != sorted(want) or got3 != sorted(want):
                 vs.append(V("composed", "sort-filter-sort", "sorted, then filtered by %r, then sorted again: %r / %r, expected the tests %r" % (
                     sorted(keep), got2, got3, sorted(want))))
+            else:
+                # ... and filtered a second time by a smaller set (a filtered tree is again a suite tree)
+                keep2 = set(sorted(keep)[::2])
+                r4 = filter_by_ids(r3, keep2)
+                got4 = sorted(x.id() for x in iterate_tests(r4))
+                want4 = sorted(i for i in want if i in keep2)
+                if got4 != want4:
+                    vs.append(V("composed", "second-filter", "filtered by %r and then by %r: %r, expected %r" % (
+                        sorted(keep), sorted(keep2), got4, want4)))
         except Exception as e:
             vs.append(V("composed", "raises-%s" % type(e).__name__, "sorted_tests then filter_by_ids then sorted_tests raised %r" % (e,)))
 
@@ -229,7 +344,7 @@ def run_case(spec):
     live = build(t, cls, reg)
     unpack = spec["unpack_outer"]
     try:
-        res = sorted_tests(live, unpack) if unpack else sorted_tests(live)
+        res = sorted_tests(live, unpack_outer=unpack) if unpack else sorted_tests(live)      # (the hooks pass it positionally)
         err = None
     except ValueError as e:
         err = e
@@ -241,23 +356,22 @@ def run_case(spec):
             vs.append(V("sorted", "duplicates-accepted", "duplicate ids %r and no ValueError" % dup))
         else:
             # expected top-level elements
-            def top(node, outer):
-                if node["k"] == "leaf":
-                    return [node]
-                if node["k"] == "plain" or outer:
-                    return [x for c in node["c"] for x in top(c, False)]
-                return [node]
-            want_top = top(t, unpack)
-            if type(res) is not unittest.TestSuite:
+            want_top = top_elems(t, unpack)
+            if not isinstance(res, unittest.TestSuite):
                 vs.append(V("sorted", "result-type", "sorted_tests returned %r" % type(res)))
             elems = list(res)
             got_nodes = [reg.get(id(e)) for e in elems]
             if any(n is None for n in got_nodes):
                 vs.append(V("sorted", "foreign-element", "result contains objects that were not in the input"))
             else:
-                ident = lambda n: id(n)
-                if sorted(map(ident, got_nodes)) != sorted(map(ident, want_top)):
-                    vs.append(V("sorted", "elements", "top-level elements %r, expected (any order) %r" % (
+                # custom suites without any test have no place "by their first test": present or dropped, both are fine
+                def split(nodes):
+                    return sorted(id(n) for n in nodes if leaves(n)), sorted(id(n) for n in nodes if not leaves(n))
+                got_ne, got_e = split(got_nodes)
+                want_ne, want_e = split(want_top)
+                extra = collections.Counter(got_e) - collections.Counter(want_e)
+                if got_ne != want_ne or extra:
+                    vs.append(V("sorted", "elements", "top-level elements %r, expected (any order, empty suites optional) %r" % (
                         [n.get("id", n["k"]) for n in got_nodes], [n.get("id", n["k"]) for n in want_top])))
                 else:
                     def key(n):
@@ -267,6 +381,19 @@ def run_case(spec):
                     nonempty = [k for k in keys if k is not None]
                     if nonempty != sorted(nonempty):
                         vs.append(V("sorted", "order", "top-level keys not ordered: %r" % keys))
+                    # the inside of every element kept whole
+                    for e, n in zip(elems, got_nodes):
+                        if n["k"] == "leaf" or undecided(n):
+                            continue
+                        inside = [x.id() for x in iterate_tests(e)]
+                        if inside != inner_ids(n):
+                            if n["k"] in HOOKED:
+                                vs.append(V("sorted", "inner-order", "a %s suite (it has a sort_tests hook) holds %r after sorted_tests, expected %r" % (
+                                    n["k"], inside, inner_ids(n))))
+                            else:
+                                vs.append(V("sorted", "custom-suite-modified", "a %s suite (no sort_tests hook) held %r and holds %r after sorted_tests" % (
+                                    n["k"], leaves(n), inside)))
+                            break
                 got_all = sorted(x.id() for x in iterate_tests(res))
                 if got_all != sorted(want_leaves):
                     vs.append(V("sorted", "test-set", "tests after sorting %r != before %r" % (got_all, sorted(want_leaves))))
@@ -295,6 +422,31 @@ def run_case(spec):
 _WORK = os.path.join(VERIF, ".work")
 
 
+def other_runners():
+    from testtools.testsuite import iterate_tests
+
+    class ListWithoutLoader:
+        """A runner of the contract before ``list(test, loader=)``."""
+
+        def __init__(self, verbosity=None, failfast=None, buffer=None, stdout=None, tb_locals=False, **kwargs):
+            self.stdout = stdout
+
+        def list(self, test):
+            for x in iterate_tests(test):
+                self.stdout.write("%s\n" % x.id())
+
+        def run(self, test):
+            raise AssertionError("--list must not run anything")
+
+    class NoList:
+        def __init__(self, verbosity=None, failfast=None, buffer=None, stdout=None, tb_locals=False, **kwargs):
+            self.stdout = stdout
+
+        def run(self, test):
+            raise AssertionError("--list must not run anything")
+    return {"whose list() takes no loader": ListWithoutLoader, "without list()": NoList}
+
+
 def run_cli(spec):
     from testtools import run as ttrun
     from testtools.testsuite import iterate_tests
@@ -304,6 +456,7 @@ def run_cli(spec):
     want_leaves = leaves(t)
     mod = types.ModuleType("vp_c19_mod")
     reg = {}
+    del _ALIVE[:]
     if t["k"] == "leaf":          # the loader wants a TestSuite/TestCase back from a callable
         t = {"k": "plain", "c": [t]}
     mod.test_suite = lambda: build(t, cls, reg)
@@ -339,11 +492,30 @@ def run_cli(spec):
         out, code, ran = call(["--load-list", listfile])
         if ran != want:
             vs.append(V("cli", "load-list-run", "--load-list %r ran %r, expected %r" % (keep, ran, want)))
-        if code not in (0, False):
+        # a run in which nothing was selected may also end the way unittest.main does since 3.12 ("no tests ran": 5)
+        if code not in ((0, False) if want else (0, False, 5)):
             vs.append(V("cli", "exit-status", "all-passing run exited with %r" % (code,)))
         out, code, ran = call(["--list", "--load-list", listfile])
+        if code not in (None, 0, False):
+            vs.append(V("cli", "list-exit-status", "--list --load-list exited with %r" % (code,)))
         if out.splitlines() != want or ran:
             vs.append(V("cli", "load-list-list", "--list --load-list printed %r, expected %r" % (out.splitlines(), want)))
+        # the same listing through runner classes of the older contracts (no ``loader`` argument / no ``list`` at all)
+        for rname, runner in other_runners().items():
+            out = io.StringIO()
+            del RUNLOG[:]
+            try:
+                ttrun.TestProgram(argv=["testtools.run", "--list", "--load-list", listfile, "vp_c19_mod.test_suite"],
+                                  testRunner=functools.partial(runner, stdout=out), stdout=out)
+                code = None
+            except SystemExit as e:
+                code = e.code
+            except Exception as e:
+                vs.append(V("cli", "list-other-runner-raises", "--list --load-list with a runner %s raised %r" % (rname, e)))
+                continue
+            if out.getvalue().splitlines() != want or RUNLOG or code not in (None, 0, False):
+                vs.append(V("cli", "list-other-runner", "--list --load-list with a runner %s printed %r (ran %r, exit %r), expected %r" % (
+                    rname, out.getvalue().splitlines(), list(RUNLOG), code, want)))
     finally:
         sys.modules.pop("vp_c19_mod", None)
         if os.path.exists(listfile):
@@ -385,6 +557,62 @@ def _enum():
         for ids in (["t0"], ["t1", "t2"], [], ["t0", "t1", "t2"]):
             for unpack in (False, True):
                 yield {"tree": t, "ids": ids, "unpack_outer": unpack}
+
+
+# ids whose relative order, or whose being "the same id", changes under casefold / natural (numeric) order / str.strip /
+# NFC normalisation / locale collation
+ORDER_IDS = ["Z.test", "a.test", "t10", "t9", "T1", "t1", "\u00a0nbsp.test", "nbsp.test", "\u00e9.test", "e\u0301.test",
+             "wide.test\u3000", "wide.test", ""]
+
+
+def _L(i, lk="placeholder"):
+    return {"k": "leaf", "id": i, "lk": lk}
+
+
+def _S(k, *c):
+    return {"k": k, "c": list(c)}
+
+
+def _enum_pairs():
+    """Every ordered pair of ORDER_IDS in six two-leaf shapes, every ordered triple of five of them around a custom suite,
+    shared leaf objects, hook-less and hooked suites nested in each other."""
+    for a, b in itertools.permutations(ORDER_IDS, 2):
+        la, lb = _L(a), _L(b)
+        shapes = [_S("plain", la, lb), _S("plain", _S("sub", la), lb), _S("plain", _S("fixture", la, lb)),
+                  _S("plain", _S("filtering", la), _S("sub", lb)), _S("sub", _S("sorting", la, lb))]
+        for t in shapes:
+            for ids in ([a], [a, b]):
+                yield {"tree": t, "ids": ids, "unpack_outer": False}
+        for ids in ([b], [a, b]):
+            for unpack in (False, True):
+                yield {"tree": _S("sorting", la, _S("plain", lb)), "ids": ids, "unpack_outer": unpack}
+    # a custom suite is placed by its first test (as it stood when sorted_tests was called), and sorts itself if it can
+    for x, y, z in itertools.permutations(["a.test", "t1", "t9", "T1", "t10"], 3):
+        for k in ("sub", "sorting", "fixture", "filtering"):
+            for ids in ([x], [y, z]):
+                yield {"tree": _S("plain", _S(k, _L(z), _L(x)), _L(y)), "ids": ids, "unpack_outer": False}
+                yield {"tree": _S("sorting", _S(k, _L(z), _L(x)), _L(y)), "ids": ids, "unpack_outer": False}
+    # one test object at two places: two leaves
+    for a in ("t1", "", "\u00e9.test"):
+        s1, s2 = _L(a, "shared"), _L(a, "shared")
+        for t in (_S("plain", s1, s2), _S("plain", _S("sub", s1), _L("t0"), s2), _S("sorting", s1, _S("filtering", s2)),
+                  _S("plain", _S("plain", s1), _S("plain", s2))):
+            for ids in ([a], [], ["t0"]):
+                for unpack in (False, True):
+                    yield {"tree": t, "ids": ids, "unpack_outer": unpack}
+
+
+def _enum_cli():
+    """--list / --load-list over every ordered pair of ORDER_IDS (one listed, both listed), ids occurring twice."""
+    for a, b in itertools.permutations(ORDER_IDS, 2):
+        yield {"tree": _S("plain", _L(a), _S("sub", _L(b))), "ids": [a], "unpack_outer": False, "framing": "lf", "blank_line": False}
+    for a, b in itertools.combinations(ORDER_IDS, 2):
+        yield {"tree": _S("fixture", _L(b), _L(a)), "ids": [a, b], "unpack_outer": False, "framing": "crlf", "blank_line": False}
+    for a in ORDER_IDS:
+        for lk in ("placeholder", "shared"):
+            for ids in ([a], []):
+                yield {"tree": _S("plain", _L(a, lk), _S("sub", _L("t0"), _L(a, lk))), "ids": ids, "unpack_outer": False,
+                       "framing": "no-final-newline" if a else "lf", "blank_line": False}
 
 
 def custom_subprocess(ctx):
@@ -451,4 +679,8 @@ def subchecks(tier):
         Sub("subprocess_cli", run_cli, custom=custom_subprocess, note="python -m testtools.run in child interpreters (thorough only)"),
         Sub("enumerated_small_trees", run_case, enum=_enum, enum_complete=True,
             note="all trees of depth<=2/fan-out<=2 over 4 suite kinds and 3 leaf ids x 4 id subsets x unpack_outer"),
+        Sub("enumerated_id_pairs", run_case, enum=_enum_pairs, enum_complete=True,
+            note="every ordered pair of 13 collation / normalisation sensitive ids x 6 shapes, triples around a custom suite, shared leaf objects"),
+        Sub("enumerated_cli_id_pairs", run_cli, enum=_enum_cli, enum_complete=True,
+            note="--list / --load-list over every ordered pair of the same 13 ids, ids occurring twice (distinct and shared objects)"),
     ]
